@@ -709,22 +709,85 @@ func init() {
 				}
 				if isArr {
 					// the store sits in a loop: must-before cannot see it on the zero-iteration path; require the store and a loop bound that is a constant
-					found, constBound := false, false
+					found, constBound, otherCond := false, false, false
 					eachInstr(reset, func(x ssa.Instruction) {
 						if isStore(x) {
 							found = true
 							for _, ft := range condFacts(x.Block()) {
-								if b, ok := ft.Cond.(*ssa.BinOp); ok {
-									if _, isC := b.Y.(*ssa.Const); isC {
-										constBound = true
+								if b, ok := ft.Cond.(*ssa.BinOp); ok && isComparison(b.Op) {
+									_, isPhi := b.X.(*ssa.Phi)
+									_, isC := b.Y.(*ssa.Const)
+									if isPhi && isC {
+										constBound = true // the loop's own bound
+										continue
 									}
 								}
+								otherCond = true // the loop runs only under some other condition
 							}
 						}
 					})
-					ok2 = found && constBound
+					ok2 = found && constBound && !otherCond
 				}
 				c.Check(ok2, fnKey(reset)+" / restores "+name, reset.Pos(), "field %s is restored to %s on every path of reset", name, want)
+			}
+		},
+	})
+}
+
+func init() {
+	register(&Rule{
+		ID: "window.recorders-add-given-amount", Props: []string{"C08", "C07", "C03"}, Floor: 5,
+		Doc: "on the write path of the window statistics (BaseStatNode.AddCount -> BucketLeapArray.AddCount / addCountWithTime -> MetricBucket.Add / AddRt / addCount) the amount that reaches the atomic add is the caller's amount itself: every forwarding call passes the function's own amount parameter and the atomic add receives it unchanged - no clamping, scaling or substitution on the way. (A response time cut off at a maximum makes the reported average RT and the slow-request classification differ from what happened.)",
+		Run: func(c *Ctx) {
+			chain := []string{
+				"core/stat.(*BaseStatNode).AddCount",
+				sbPkg + ".(*BucketLeapArray).AddCount",
+				sbPkg + ".(*BucketLeapArray).addCountWithTime",
+				sbPkg + ".(*MetricBucket).Add",
+				sbPkg + ".(*MetricBucket).AddRt",
+				sbPkg + ".(*MetricBucket).addCount",
+			}
+			inChain := map[*ssa.Function]bool{}
+			var fs []*ssa.Function
+			for _, n := range chain {
+				f := c.P.Func(n)
+				if f == nil {
+					c.AnchorLost(n)
+					continue
+				}
+				inChain[f] = true
+				fs = append(fs, f)
+			}
+			for _, f := range fs {
+				// the amount parameter: the last int64 parameter
+				var amt *ssa.Parameter
+				for _, p := range f.Params {
+					if b, ok := p.Type().Underlying().(*types.Basic); ok && b.Kind() == types.Int64 {
+						amt = p
+					}
+				}
+				if amt == nil {
+					c.AnchorLost(fnKey(f) + " amount parameter")
+					continue
+				}
+				n, bad := 0, ""
+				for _, ci := range callsIn(f) {
+					cal := ci.Common().StaticCallee()
+					args := ci.Common().Args
+					switch {
+					case cal != nil && inChain[cal]:
+						n++
+						if len(args) == 0 || resolve(args[len(args)-1]) != ssa.Value(amt) {
+							bad = c.P.Pos(ci.Pos()) + ": " + accessPath(args[len(args)-1])
+						}
+					case isExtCall(ci, "sync/atomic.AddInt64") && strings.Contains(accessPath(args[0]), ".counter["):
+						n++
+						if resolve(args[1]) != ssa.Value(amt) {
+							bad = c.P.Pos(ci.Pos()) + ": " + accessPath(args[1])
+						}
+					}
+				}
+				c.Check(n > 0 && bad == "", fnKey(f)+" / forwards-own-amount", f.Pos(), "%d forwarding call(s) / atomic add(s) receive the function's own amount parameter (offending: %q)", n, bad)
 			}
 		},
 	})
